@@ -35,7 +35,7 @@ LABELS = [b"a", b"b", b"c", b"d", b"ns", b"z", b"*", b"_x"]
 
 
 def shards(tier, seed):
-    mult = 1 if tier == "quick" else 12
+    mult = 1 if tier == "quick" else 24
     return [{"n": 250 * mult} for _ in range(16)]
 
 
